@@ -302,6 +302,7 @@ RESET_TIMER:
 		if len(s.bufptr) > 0 {
 			n = copy(b, s.bufptr)
 			s.bufptr = s.bufptr[n:]
+			s.renotifyReadable()
 			s.mu.Unlock()
 			atomic.AddUint64(&DefaultSnmp.BytesReceived, uint64(n))
 			return n, nil
@@ -312,6 +313,7 @@ RESET_TIMER:
 			// from kcp.recv() to 'b', like 'DMA'.
 			if len(b) >= size {
 				s.kcp.Recv(b)
+				s.renotifyReadable()
 				s.mu.Unlock()
 				atomic.AddUint64(&DefaultSnmp.BytesReceived, uint64(size))
 				return size, nil
@@ -329,6 +331,7 @@ RESET_TIMER:
 			s.kcp.Recv(s.recvbuf)    // read data to recvbuf first
 			n = copy(b, s.recvbuf)   // then copy bytes to 'b' as many as possible
 			s.bufptr = s.recvbuf[n:] // pointer update
+			s.renotifyReadable()
 
 			s.mu.Unlock()
 			atomic.AddUint64(&DefaultSnmp.BytesReceived, uint64(n))
@@ -930,6 +933,14 @@ func (s *UDPSession) SendOOB(data []byte) error {
 		// OOB delivery is best-effort by design.
 		defaultBufferPool.Put(buf)
 		return nil
+	}
+}
+
+// renotifyReadable passes the wake-up token on to the next blocked reader
+// when data is still readable. Must be called with s.mu held.
+func (s *UDPSession) renotifyReadable() {
+	if len(s.bufptr) > 0 || s.kcp.PeekSize() > 0 {
+		s.notifyReadEvent()
 	}
 }
 
